@@ -16,6 +16,7 @@ from ..analysis import (
     SyntaxCheck,
 )
 from ..ast.fpyast import *
+from ..ast.visitor import DefaultVisitor
 from ..env import ForeignEnv
 from ..function import Function
 from ..number import REAL
@@ -36,6 +37,25 @@ def _replace_ret(block: StmtBlock, new_var: NamedId):
             _replace_ret(last_stmt.body, new_var)
         case _:
             raise RuntimeError(f'expected a `return` or `with` statement, got `{last_stmt}`')
+
+
+class _FindsState(DefaultVisitor):
+    """Looks for what an expression reads that a statement can change."""
+
+    found: bool = False
+
+    def _visit_var(self, e: Var, ctx: None):
+        self.found = True
+
+    def _visit_call(self, e: Call, ctx: None):
+        self.found = True
+
+
+def _is_constant(e: Expr) -> bool:
+    """Whether `e` reads no variable and calls nothing."""
+    finder = _FindsState()
+    finder._visit_expr(e, None)
+    return not finder.found
 
 
 @dataclass
@@ -131,13 +151,52 @@ class _FuncInline(SiteRewriter):
         self.free_vars = set(func.free_vars)
         self.env = func.env.copy()
 
+    def _visit_operands(self, es: Iterable[Expr], ctx: _Ctx):
+        """Visits operands that are evaluated one after the other.
+
+        A callee body is spliced *ahead* of the statement that held the call,
+        so an operand evaluated before the call would now run after it, and
+        see what the callee wrote to a list they share.  Where visiting an
+        operand splices, the operands before it are bound to temporaries ahead
+        of the spliced statements instead.  Returns `es`, rewritten.
+        """
+        done: list[Expr] = []
+        for e in es:
+            before = len(ctx.stmts)
+            arg = self._visit_expr(e, ctx)
+            if len(ctx.stmts) > before:
+                hoisted: list[Stmt] = []
+                for i, prev in enumerate(done):
+                    done[i] = self._evaluate_ahead(prev, hoisted, ctx)
+                ctx.stmts[before:before] = hoisted
+            done.append(arg)
+        return done
+
+    def _evaluate_ahead(self, e: Expr, stmts: list[Stmt], ctx: _Ctx) -> Expr:
+        """Binds `e` to a temporary in `stmts`, unless it evaluates to the
+        same thing wherever it stands; returns what to use in its place."""
+        if isinstance(e, Var) or _is_constant(e):
+            return e
+        t = self.gensym.fresh('t')
+        bind: Stmt = Assign(t, None, e, e.loc)
+        if ctx.is_ctx_expr:
+            # a context expression is evaluated under `RealContext`
+            bind = ContextStmt(UnderscoreId(), ForeignVal(REAL, None), StmtBlock([bind]), e.loc)
+        stmts.append(bind)
+        return Var(t, e.loc)
+
+    def _keep_call(self, e: Call, ctx: _Ctx):
+        args = self._visit_operands([*e.args, *(v for _, v in e.kwargs)], ctx)
+        kwargs = [(k, v) for (k, _), v in zip(e.kwargs, args[len(e.args):])]
+        return Call(e.func, e.fn, args[:len(e.args)], kwargs, e.loc)
+
     def _visit_call(self, e: Call, ctx: _Ctx):
         if not isinstance(e.fn, Function):
             # not calling a function so no inlining
-            return super()._visit_call(e, ctx)
+            return self._keep_call(e, ctx)
         if self.funcs is not None and e.fn not in self.funcs:
             # not a candidate for inlining
-            return super()._visit_call(e, ctx)
+            return self._keep_call(e, ctx)
 
         # a refusal is not a site, so it takes no index
         reason = _refuses(e, in_while_cond=ctx.in_while_cond, lazy=ctx.lazy)
@@ -145,17 +204,17 @@ class _FuncInline(SiteRewriter):
             self.refused.append((e, reason))
             if self._named_by_cursor(e):
                 self.declined.append(reason)
-            return super()._visit_call(e, ctx)
+            return self._keep_call(e, ctx)
 
         idx = self.site_idx
         self.site_idx += 1
         if not self._selects_expr(e, idx):
             # a candidate site, but not the selected one
-            return super()._visit_call(e, ctx)
+            return self._keep_call(e, ctx)
         self._matched += 1
         if self.listing:
             self.found_exprs.append(e)
-            return super()._visit_call(e, ctx)
+            return self._keep_call(e, ctx)
 
         # Inline the callee body.  Acyclicity is guaranteed by the
         # `CallGraph` guard in `FuncInline.apply`, so this terminates.
@@ -235,19 +294,67 @@ class _FuncInline(SiteRewriter):
         iff = self._visit_expr(e.iff, ctx.within('an `if` expression'))
         return IfExpr(cond, ift, iff, e.loc)
 
+    def _visit_binaryop(self, e: BinaryOp, ctx: _Ctx):
+        first, second = self._visit_operands([e.first, e.second], ctx)
+        if isinstance(e, NamedBinaryOp):
+            return type(e)(e.func, first, second, e.loc)
+        else:
+            return type(e)(first, second, e.loc)
+
+    def _visit_ternaryop(self, e: TernaryOp, ctx: _Ctx):
+        first, second, third = self._visit_operands([e.first, e.second, e.third], ctx)
+        if isinstance(e, NamedTernaryOp):
+            return type(e)(e.func, first, second, third, e.loc)
+        else:
+            return type(e)(first, second, third, e.loc)
+
     def _visit_naryop(self, e: NaryOp, ctx: _Ctx):
         if isinstance(e, And | Or):
             # short-circuit: only the first operand is always evaluated
             lazy = ctx.within('a short-circuiting `and` / `or`')
             args = [self._visit_expr(arg, ctx if i == 0 else lazy) for i, arg in enumerate(e.args)]
             return type(e)(args, e.loc)
-        return super()._visit_naryop(e, ctx)
+        args = self._visit_operands(e.args, ctx)
+        if isinstance(e, NamedNaryOp):
+            return type(e)(e.func, args, e.loc)
+        else:
+            return type(e)(args, e.loc)
 
     def _visit_compare(self, e: Compare, ctx: _Ctx):
         # a chain stops at its first false link
         lazy = ctx.within('a comparison chain')
-        args = [self._visit_expr(arg, ctx if i < 2 else lazy) for i, arg in enumerate(e.args)]
+        args = self._visit_operands(e.args[:2], ctx)
+        args += [self._visit_expr(arg, lazy) for arg in e.args[2:]]
         return Compare(e.ops, args, e.loc)
+
+    def _visit_tuple_expr(self, e: TupleExpr, ctx: _Ctx):
+        elts = self._visit_operands(e.elts, ctx)
+        return TupleExpr(elts, e.loc)
+
+    def _visit_list_expr(self, e: ListExpr, ctx: _Ctx):
+        elts = self._visit_operands(e.elts, ctx)
+        return ListExpr(elts, e.loc)
+
+    def _visit_list_ref(self, e: ListRef, ctx: _Ctx):
+        value, index = self._visit_operands([e.value, e.index], ctx)
+        return ListRef(value, index, e.loc)
+
+    def _visit_list_slice(self, e: ListSlice, ctx: _Ctx):
+        bounds = [b for b in (e.start, e.stop) if b is not None]
+        value, *bounds = self._visit_operands([e.value, *bounds], ctx)
+        start = None if e.start is None else bounds.pop(0)
+        stop = None if e.stop is None else bounds.pop(0)
+        return ListSlice(value, start, stop, e.loc)
+
+    def _visit_indexed_assign(self, stmt: IndexedAssign, ctx: _Ctx):
+        # the indices are visited first, but evaluated after the assigned value
+        at_indices = _Ctx([], ctx.is_ctx_expr, ctx.in_while_cond, ctx.lazy)
+        indices = self._visit_operands(stmt.indices, at_indices)
+        expr = self._visit_expr(stmt.expr, ctx)
+        if at_indices.stmts:
+            expr = self._evaluate_ahead(expr, ctx.stmts, ctx)
+            ctx.stmts.extend(at_indices.stmts)
+        return IndexedAssign(stmt.var, indices, expr, stmt.loc), ctx
 
     def _visit_list_comp(self, e: ListComp, ctx: _Ctx):
         # all but the first iterable are evaluated per element, under the
